@@ -47,7 +47,16 @@ PAYLOADS = {
     "apos": b"zq'",
     "nonascii": "zqé<b>".encode("utf-8"),
     "crlf": b"zq\r\n<i>",
+    # characters that are not markup but *become* markup under compatibility / canonical folding, and byte sequences
+    # that a lenient decoder turns into markup: harmless as long as the page is emitted as what html.escape saw
+    "fullwidth": "zq＜script＞x＜/script＞".encode("utf-8"),  # U+FF1C / U+FF1E
+    "smallform": "zq﹤img src=x﹥".encode("utf-8"),  # U+FE64 / U+FE65
+    "fw_amp_quotes": "zq＆x＂y＇".encode("utf-8"),  # U+FF06, U+FF02, U+FF07
+    "decomposing": "zq≮b≯".encode("utf-8"),  # U+226E / U+226F decompose canonically to < / > + U+0338
+    "overlong": b"zq\xc0\xbcscript\xc0\xbe",  # overlong (invalid) UTF-8 encodings of < and >
+    "bad_utf8": b"zq\xff<b>\xfe",
 }
+FOLDING_PAYLOADS = ("fullwidth", "smallform", "fw_amp_quotes", "decomposing", "overlong", "bad_utf8")
 TEMPLATE_TAGS = ["html", "head", "title", "/title", "/head", "body", "h1", "/h1", "p", "/p", "/body", "/html"]
 ALLOWED_REFS = {"&amp;", "&lt;", "&gt;", "&quot;", "&#x27;", "&#39;"}
 
@@ -101,7 +110,7 @@ def _prods():
     p["req_too_large_chunked"] = lambda P, m: {"opts": {"body_size_limit": "5"}, "client": _req(m, extra=[b"X-P: " + P, b"Transfer-Encoding: chunked"], body=False) + b"9\r\nabcdefghi\r\n0\r\n\r\n"}
     p["req_chunk_size"] = lambda P, m: {"client": _req(m, extra=[b"Transfer-Encoding: chunked"], body=False) + P + b"\r\nabc\r\n0\r\n\r\n"}
     # ---- upstream side -----------------------------------------------------------------------------------------------
-    p["connect_fail"] = lambda P, m: {"client": _req(m), "connect": ("fail", P.decode("utf-8")), "crlf_ok": True}
+    p["connect_fail"] = lambda P, m: {"client": _req(m), "connect": ("fail", P.decode("utf-8", "surrogateescape")), "crlf_ok": True}
     p["resp_status"] = lambda P, m: {"client": _req(m), **_srv(b"HTTP/1.1 " + P + b"\r\n\r\n")}
     p["resp_version"] = lambda P, m: {"client": _req(m), **_srv(P + b" 200 OK\r\n\r\n")}
     p["resp_hdr_no_colon"] = lambda P, m: {"client": _req(m), **_srv(b"HTTP/1.1 200 OK\r\n" + P + b"\r\n\r\n")}
@@ -120,9 +129,9 @@ def _prods():
     up = "upstream:http://proxy.test:8080"
     p["upstream_connect_refused"] = lambda P, m: {"mode": up, "client": _req(m, target=b"https://example.com/a"), **_srv(b"HTTP/1.1 403 " + P + b"\r\nContent-Length: 0\r\n\r\n")}
     p["upstream_connect_bad_line"] = lambda P, m: {"mode": up, "client": _req(m, target=b"https://example.com/a"), **_srv(P + b"\r\n\r\n")}
-    p["upstream_connect_fail"] = lambda P, m: {"mode": up, "client": _req(m), "connect": ("fail", P.decode("utf-8")), "crlf_ok": True}
+    p["upstream_connect_fail"] = lambda P, m: {"mode": up, "client": _req(m), "connect": ("fail", P.decode("utf-8", "surrogateescape")), "crlf_ok": True}
     # ---- tunnel / auth -----------------------------------------------------------------------------------------------
-    p["connect_tunnel_fail"] = lambda P, m: {"client": b"CONNECT example.com:443 HTTP/1.1\r\nHost: example.com:443\r\n\r\n", "connect": ("fail", P.decode("utf-8")), "method": b"CONNECT", "crlf_ok": True}
+    p["connect_tunnel_fail"] = lambda P, m: {"client": b"CONNECT example.com:443 HTTP/1.1\r\nHost: example.com:443\r\n\r\n", "connect": ("fail", P.decode("utf-8", "surrogateescape")), "method": b"CONNECT", "crlf_ok": True}
     p["proxyauth_407"] = lambda P, m: {"proxyauth": True, "client": _req(m, extra=[b"Proxy-Authorization: Basic " + P])}
     # ---- control: no error at all ------------------------------------------------------------------------------------
     p["control_ok"] = lambda P, m: {"client": _req(m, extra=[b"X-P: " + P]), **_srv(b"HTTP/1.1 200 OK\r\nContent-Length: 0\r\n\r\n")}
@@ -155,7 +164,7 @@ def _h2prods():
     p["h2_connect_in_transparent"] = lambda P, m: {"http_mode": "transparent", "fields": [(b":method", b"CONNECT"), (b":authority", b"example.com:443"), (b"x-p", P)]}
     p["h2_req_too_large"] = lambda P, m: {"opts": {"body_size_limit": "5"}, "fields": _h2_fields(b"POST", extra=[(b"x-p", P), (b"content-length", b"9")]), "body": b"abcdefghi"}
     p["h2_req_too_large_late"] = lambda P, m: {"opts": {"body_size_limit": "5"}, "fields": _h2_fields(b"POST", extra=[(b"x-p", P)]), "body": b"abcdefghi"}
-    p["h2_connect_fail"] = lambda P, m: {"fields": _h2_fields(m), "connect": ("fail", P.decode("utf-8")), "crlf_ok": True}
+    p["h2_connect_fail"] = lambda P, m: {"fields": _h2_fields(m), "connect": ("fail", P.decode("utf-8", "surrogateescape")), "crlf_ok": True}
     p["h2_resp_status"] = lambda P, m: {"fields": _h2_fields(m), **_srv(b"HTTP/1.1 " + P + b"\r\n\r\n")}
     p["h2_resp_hdr_name"] = lambda P, m: {"fields": _h2_fields(m), **_srv(b"HTTP/1.1 200 OK\r\n" + P + b": v\r\nContent-Length: 0\r\n\r\n")}
     p["h2_resp_cl_value"] = lambda P, m: {"fields": _h2_fields(m), **_srv(b"HTTP/1.1 200 OK\r\nContent-Length: " + P + b"\r\n\r\n")}
@@ -225,22 +234,32 @@ class _Page(HTMLParser):
 
 
 def judge_page(t: Tally, feats, case, status, body: bytes, payload: bytes):
-    """clauses about the markup of one page; returns True if the payload marker is reflected"""
+    """clauses about the markup of one page; returns True if the payload marker is reflected.
+    What is judged are the bytes on the wire.  The pages declare no charset, so a reader may take them as UTF-8 or
+    as a single-byte ASCII superset: both readings are tokenised (markup characters are ASCII in either)."""
+    readings = []
     try:
-        text = body.decode("utf-8")
+        readings.append(("utf-8", body.decode("utf-8")))
     except UnicodeDecodeError:
-        text = body.decode("latin-1")
-        t.bad("payload_only_escaped", dict(feats, fault="not-utf8"), case, "utf-8 page", body[:200])
-    pg = _Page()
-    pg.feed(text)
-    pg.close()
-    t.judge("only_template_tags", pg.tags == TEMPLATE_TAGS and not pg.other, feats, case, TEMPLATE_TAGS, {"tags": pg.tags[:30], "other": pg.other, "body": body[:300]})
-    bad_refs = [r for r in pg.refs if r not in ALLOWED_REFS]
+        readings.append(("utf-8/replace", body.decode("utf-8", "replace")))
+    readings.append(("latin-1", body.decode("latin-1")))
+    pages = []
+    for name, txt in readings:
+        p_ = _Page()
+        p_.feed(txt)
+        p_.close()
+        pages.append((name, p_))
+    text = readings[0][1]
+    pg = pages[0][1]
+    tag_faults = [(name, p_.tags[:30], p_.other) for name, p_ in pages if p_.tags != TEMPLATE_TAGS or p_.other]
+    t.judge("only_template_tags", not tag_faults, feats, case, TEMPLATE_TAGS, {"read as / tags / other": tag_faults[:1], "body": body[:300]})
     problems = []
-    if pg.stray:
-        problems.append(("raw markup character in text", sorted(set(pg.stray))))
-    if bad_refs:
-        problems.append(("entity reference html.escape never produces", bad_refs[:4]))
+    for name, p_ in pages:
+        bad_refs = [r for r in p_.refs if r not in ALLOWED_REFS]
+        if p_.stray:
+            problems.append(("raw markup character in text (read as %s)" % name, sorted(set(p_.stray))))
+        if bad_refs:
+            problems.append(("entity reference html.escape never produces (read as %s)" % name, bad_refs[:4]))
     # the headline must be the status, never input
     want = None
     for k in ("title", "h1"):
@@ -468,15 +487,16 @@ def cases():
         for pay in PAYLOADS:
             if pay == "crlf" and not crlf_ok:
                 continue
-            for m in METHODS:
-                for fol in (False, True):
+            folding = pay in FOLDING_PAYLOADS  # every position, but only GET without follower (the page does not depend on them)
+            for m in (METHODS[:1] if folding else METHODS):
+                for fol in ((False,) if folding else (False, True)):
                     out.append({"proto": "h1", "producer": prod, "payload": pay, "method": m, "follower": fol})
     for prod in H2_PRODUCERS:
         crlf_ok = bool(H2_PRODUCERS[prod](b"x", b"GET").get("crlf_ok"))
         for pay in PAYLOADS:
             if pay == "crlf" and not crlf_ok:
                 continue
-            for m in METHODS:
+            for m in (METHODS[:1] if pay in FOLDING_PAYLOADS else METHODS):
                 for val in (True, False):
                     out.append({"proto": "h2", "producer": prod, "payload": pay, "method": m, "validate": val})
     return out
